@@ -8,6 +8,8 @@ CONSTANTS
   GeCmp = TRUE
   AwaitStop = FALSE
   NotifyPop = TRUE
+  ReleaseOnEnd = TRUE
+  Faults = TRUE
   MaxOps = 2
   MaxCancel = 0
   Depth = 0
